@@ -734,6 +734,17 @@ def judge_c08(spec, gs, tbs, inputs, diags, dumps, maps, tdiffs, byk, jobs, info
                     else: viol(out, g, data, 11, 'recovery through cstring_buffer threw %s although the parse needs %d stack entries and the documented capacity is %d' % (r11.extra[:60], ex.res.maxdepth, cap))
                 elif (r11.res, model.mask_positions(_COPYEV.sub('', r11.events))) != (r0.res, got):
                     viol(out, g, data, 11, 'recovery through cstring_buffer gives (%s, %s), through string_buffer (%s, %s)' % (r11.res, r11.events[:150], r0.res, r0.events[:150]))
+            # the same recovery with whitespace / newlines not skipped: blanks are then ordinary input also while terms are being discarded
+            for mo, (sw, sn) in ((7, (False, True)), (9, (False, False))):
+                ro = byk.get((gi, idx, mo))
+                if ro is None: continue
+                exo = model.expect(g, tb, data, skip_ws=sw, skip_nl=sn)
+                if exo.res.hang: continue
+                C['recoveries_without_whitespace_skipping'] += 1
+                goto_ = model.mask_positions(_COPYEV.sub('', ro.events)); wanto = model.mask_positions(exo.events)
+                if (ro.res == 1) != exo.ok or goto_ != wanto or ro.stream != exo.stream:
+                    viol(out, g, data, mo, 'with %s: result %s, log %s, messages %r; the documented algorithm gives %s, %s, %r' % (
+                        'skip_whitespace(false)' if mo == 7 else 'skip_whitespace(false), skip_newline(false)', ro.res, goto_[:150], ro.stream[:100], exo.ok, wanto[:150], exo.stream[:100]))
             acts = trace_actions(dg.parse_trace(r1.stream))
             if acts != ex.trace:
                 k = next((i for i in range(min(len(acts), len(ex.trace))) if acts[i] != ex.trace[i]), min(len(acts), len(ex.trace)))
